@@ -27,6 +27,7 @@ type gen struct {
 	typed    []string // keys of typed records
 	usedOps  map[string]bool
 	subOps   []string // op-ids of sub / qsub / query requests (cancel targets)
+	written  []string // keys that create/update messages of the case target
 	allOps   []string
 	conc     bool
 	opSerial int
@@ -129,7 +130,10 @@ func (g *gen) payload() []byte {
 // insert payloads are bare JSON (no format byte)
 func (g *gen) insertPayload() []byte {
 	t := g.t
-	switch rapid.IntRange(0, 9).Draw(t, "ikind") {
+	switch rapid.IntRange(-3, 9).Draw(t, "ikind") {
+	case -3, -2, -1:
+		// new fields / same-typed replacements: these usually succeed on JSON records
+		return []byte(rapid.SampledFrom([]string{`{"added":1}`, `{"added":"s","more":true}`, `{"Name":"renamed"}`, `{"N":8}`, `{"B":false,"F":0.5}`, `{"Tags":["z"]}`, `{"M":{"k":"w"}}`, `{"Inner":{"X":2}}`, `{"x":null}`}).Draw(t, "compatible"))
 	case 0, 1, 2, 3:
 		return mustJSON(g.jsonObject(1))
 	case 4, 5:
@@ -207,6 +211,12 @@ func (g *gen) db() backend { return rapid.SampledFrom(g.dbs).Draw(g.t, "db") }
 
 func (g *gen) key(forWrite bool, kind string) string {
 	t := g.t
+	if kind == kInsert && len(g.typed) > 0 && rapid.IntRange(0, 2).Draw(t, "typedtarget") == 0 {
+		return rapid.SampledFrom(g.typed).Draw(t, "typedkey")
+	}
+	if len(g.written) > 0 && rapid.IntRange(0, 3).Draw(t, "written") == 0 {
+		return rapid.SampledFrom(g.written).Draw(t, "writtenkey") // a key an earlier message of the case wrote to
+	}
 	k := rapid.IntRange(0, 19).Draw(t, "keykind")
 	switch {
 	case k < 13 && len(g.keys) > 0:
@@ -301,7 +311,9 @@ func (g *gen) message() msg {
 	case kQuery, kSub, kQsub:
 		return build(kind, g.opFor(kind), "", g.queryText(), nil)
 	case kCreate, kUpdate:
-		return build(kind, g.opFor(kind), g.key(true, kind), "", g.payload())
+		key := g.key(true, kind)
+		g.written = append(g.written, key)
+		return build(kind, g.opFor(kind), key, "", g.payload())
 	case kInsert:
 		return build(kind, g.opFor(kind), g.key(true, kind), "", g.insertPayload())
 	case kCancel:
@@ -377,6 +389,16 @@ func genCase(t *rapid.T, conc bool) *dbCase {
 	n := rapid.IntRange(1, 12).Draw(t, "nmsgs")
 	for len(c.Msgs) < n {
 		c.Msgs = append(c.Msgs, g.message())
+	}
+	if conc && rapid.IntRange(0, 2).Draw(t, "bulk") == 0 {
+		// many records and a slow consumer: queries take long enough for cancels and writes to race them
+		c.Bulk = rapid.SampledFrom([]int{15, 40, 120}).Draw(t, "nbulk")
+		for _, b := range g.dbs {
+			if b.Persistent {
+				c.BulkDBs = append(c.BulkDBs, b.Name)
+			}
+		}
+		c.SendYields = rapid.SampledFrom([]int{0, 1, 5, 50}).Draw(t, "sendyields")
 	}
 	if conc {
 		ny := rapid.IntRange(0, 4).Draw(t, "nyields")
